@@ -521,10 +521,53 @@ def r04_12(ctx) -> None:
     ctx.count("R04.12", n, 10, "uses of an algorithm object under a branch on one of its traits")
 
 
+HEADER_POSITIONS = ("protected", "unprotected", "header")
+
+
+def r04_14(ctx) -> None:
+    """R04.14  "the header members in their protected, shared-unprotected and per-recipient positions" come back as given: the library adds
+    members to header objects (epk, p2s, kid ...) but never removes or clears one - no `del h[...]`, `.pop`, `.popitem`, `.clear` on an
+    expression that denotes a header position (`<x>.protected`, `<x>.unprotected`, `<x>.header`, a `headers()` view is a copy)."""
+    eng = ctx.eng
+    n = 0
+
+    def is_pos(fn, e: ast.AST) -> bool:
+        for t_ in resolve_all(eng, fn, e):
+            last = t_.split(".")[-1]
+            if last in HEADER_POSITIONS or last.lstrip("_") in HEADER_POSITIONS:
+                return True
+        return False
+
+    stores = 0
+    for fn in eng.prog.all_functions():
+        if fn.module.short.startswith(("rfc7519", "rfc7517", "rfc7518.oct", "rfc7518.rsa", "rfc7518.ec", "rfc8037.okp", "_keys", "jwk")):
+            continue
+        for node in fn_nodes(fn):
+            hit = None
+            if isinstance(node, ast.Delete):
+                for t_ in node.targets:
+                    if isinstance(t_, ast.Subscript) and is_pos(fn, t_.value):
+                        hit = t_
+            elif isinstance(node, ast.Call) and isinstance(node.func, ast.Attribute) and node.func.attr in ("pop", "popitem", "clear", "__delitem__") and is_pos(fn, node.func.value):
+                hit = node
+            elif isinstance(node, ast.Subscript) and isinstance(node.ctx, ast.Store) and is_pos(fn, node.value):
+                stores += 1
+            elif isinstance(node, ast.Call) and isinstance(node.func, ast.Attribute) and node.func.attr == "update" and is_pos(fn, node.func.value):
+                stores += 1
+            if hit is not None:
+                n += 1
+                ctx.fail("R04.14", fn, hit, f"{fn.short} removes a member from a header object (`{norm(hit)[:60]}`): the header that comes back is not the header that was given",
+                         construct=f"header member removed in {fn.short}")
+    ctx.count("R04.14", stores, 3, "stores into header positions (the rule's positive examples; removals found: %d)" % n)
+
+
 def run(ctx) -> None:
     from .common import forwarding_discipline
     ctx.guard(forwarding_discipline, "R04.11", ['plaintext', 'recipient', 'enc', 'tag', 'cek', 'aad', 'iv', 'ek', 'sender_key', 'protected', 'header'], 65)  # arguments are handed on under their own name (generic routing rule, rules/common.py)
     ctx.guard(r04_12)
+    from .common import octet_length_lint
+    ctx.guard(octet_length_lint, "R04.15")  # "every key of the required type, size and curve": P-521 coordinates are 66 octets
+    ctx.guard(r04_14)
     ctx.guard(r04_9)
     ctx.guard(r04_8)
     ctx.guard(r04_7)
